@@ -11,6 +11,11 @@ S4 == [il |-> FALSE, segs |-> <<G(1, 1, 1), T(2, 2, 3, 2, 1)>>]
 S5 == [il |-> FALSE, segs |-> <<T(2, 2, 2, 1, 0)>>]
 S6 == [il |-> TRUE,  segs |-> <<G(1, 1, 2), T(2, 2, 3, 1, 1)>>]
 S7 == [il |-> FALSE, segs |-> <<G(3, 0, 3)>>]
+\* beyond the small scope: more than 100 segments, the two channels agreeing on the first 104 and differing after
+RECURSIVE Rep(_, _)
+Rep(s, n) == IF n = 0 THEN <<>> ELSE s \o Rep(s, n - 1)
+S8 == [il |-> FALSE, segs |-> Rep(<<G(1, 1, 1)>>, 104) \o <<G(1, 2, 1), G(2, 1, 1), G(1, 1, 2)>>]
+c_Long == {S8}
 c_All == {S1, S2, S3, S4, S5, S6, S7}
 c_Quick == {S1, S3, S6}
 ====
